@@ -559,7 +559,13 @@ func (m *vMachC15) invariant(t *rapid.T) {
 			continue
 		}
 		m.st.Evals(1)
-		if out, err := r.env.Check(true); err != nil {
+		// one backend connection while checking: `check --read-data` allocates a 4 MiB stream buffer per
+		// connection on every run, which dominated the run time; the commands of the history keep 5
+		conns := r.env.store.Conns
+		r.env.store.Conns = 1
+		out, err := r.env.Check(true)
+		r.env.store.Conns = conns
+		if err != nil {
 			t.Fatalf("check --read-data on %s: %v\n%s%s\nhistory:\n  %s", r.name, err, out.Stdout, out.Stderr, m.history())
 		}
 		listed := r.env.store.Keys(backend.SnapshotFile)
@@ -1090,25 +1096,23 @@ func TestVerifC15Histories(t *testing.T) {
 			m.invariant(t)
 		}
 
+		// rapid draws small indices of the (sorted) action names more often: the order is a weighting
 		t.Repeat(map[string]func(*rapid.T){
-			"":                 m.invariant,
-			"backup":           withPw(m.actBackup),
-			"backup2":          withPw(m.actBackup),
-			"forget":           withPw(m.actForget),
-			"prune":            withPw(m.actPrune),
-			"prune2":           withPw(m.actPrune),
-			"tag":              withPw(m.actTag),
-			"rewrite":          withPw(m.actRewrite),
-			"rewrite2":         withPw(m.actRewrite),
-			"copy":             withPw(m.actCopy),
-			"repair-index":     withPw(m.actRepairIndex),
-			"repair-packs":     withPw(m.actRepairPacks),
-			"repair-snapshots": withPw(m.actRepairSnapshots),
-			"key-add":          withPw(m.actKeyAdd),
-			"key-passwd":       withPw(m.actKeyPasswd),
-			"key-remove":       withPw(m.actKeyRemove),
-			"migrate":          withPw(m.actMigrate),
-			"unlock":           withPw(m.actUnlock),
+			"":                    m.invariant,
+			"01-prune":            withPw(m.actPrune),
+			"02-backup":           withPw(m.actBackup),
+			"03-rewrite":          withPw(m.actRewrite),
+			"04-forget":           withPw(m.actForget),
+			"05-copy":             withPw(m.actCopy),
+			"06-tag":              withPw(m.actTag),
+			"07-repair-packs":     withPw(m.actRepairPacks),
+			"08-key-passwd":       withPw(m.actKeyPasswd),
+			"09-repair-index":     withPw(m.actRepairIndex),
+			"10-repair-snapshots": withPw(m.actRepairSnapshots),
+			"11-key-remove":       withPw(m.actKeyRemove),
+			"12-key-add":          withPw(m.actKeyAdd),
+			"13-migrate":          withPw(m.actMigrate),
+			"14-unlock":           withPw(m.actUnlock),
 		})
 
 		after := 0
